@@ -110,12 +110,35 @@ def handlers_in(fn: ast.AST) -> List[str]:
 
 # ----------------------------------------------------------------------------------------------
 
+def flatten_elif_returns(stmts: List[ast.stmt]) -> List[ast.stmt]:
+    """`if a: return x elif b: return y [else: rest]` -> `if a: return x; if b: return y; rest` (the same control
+    flow: every taken branch leaves the function)"""
+    out: List[ast.stmt] = []
+    for st in stmts:
+        while (isinstance(st, ast.If) and st.orelse and len(st.body) == 1 and isinstance(st.body[0], (ast.Return, ast.Raise))):
+            out.append(ast.If(test=st.test, body=st.body, orelse=[]))
+            rest = st.orelse
+            if len(rest) == 1 and isinstance(rest[0], ast.If):
+                st = rest[0]
+            else:
+                out += flatten_elif_returns(rest)
+                st = None
+                break
+        if st is not None:
+            out.append(st)
+    return out
+
+
 def tr_operator_in(ev: ast.Module) -> str:
     fn = find_func(ev.body, "operator_in")
     params = [a.arg for a in fn.args.args]
     need(len(params) == 2, "operator_in: two parameters")
     item, cont = params
-    b = body_of(fn)
+    b = flatten_elif_returns(body_of(fn))
+    # the accumulator initialisation (a constant) is independent of the guards: accept it before, between or after them
+    accs = [i for i, st in enumerate(b[:3]) if isinstance(st, (ast.Assign, ast.AnnAssign))]
+    if len(accs) == 1 and accs[0] != 2:
+        b = [x for i, x in enumerate(b) if i != accs[0]][:2] + [b[accs[0]]] + [x for i, x in enumerate(b) if i != accs[0]][2:]
     need(len(b) == 5, f"operator_in: expected 5 statements, found {len(b)}")
     # 1,2: error operands are returned, item first
     order = []
@@ -239,6 +262,11 @@ def dup_loop(stmts, what: str):
     need(len(loops) >= 1, f"{what}: loop over pairs")
     for lp in loops:
         lb = [s for s in lp.body if not is_logger_call(s)]
+        # `if k not in target: target[k] = v  else: raise E` is the same loop body
+        if (len(lb) == 1 and isinstance(lb[0], ast.If) and isinstance(lb[0].test, ast.Compare) and isinstance(lb[0].test.ops[0], ast.NotIn)
+                and len(lb[0].body) == 1 and len(lb[0].orelse) == 1 and isinstance(lb[0].orelse[0], ast.Raise)):
+            t = lb[0].test
+            lb = [ast.If(test=ast.Compare(left=t.left, ops=[ast.In()], comparators=t.comparators), body=lb[0].orelse, orelse=[]), lb[0].body[0]]
         if (len(lb) == 2 and isinstance(lb[0], ast.If) and not lb[0].orelse and isinstance(lb[0].test, ast.Compare)
                 and isinstance(lb[0].test.ops[0], ast.In) and len(lb[0].body) == 1 and isinstance(lb[0].body[0], ast.Raise)
                 and isinstance(lb[1], ast.Assign) and isinstance(lb[1].targets[0], ast.Subscript)):
@@ -293,7 +321,7 @@ def tr_maps(ev: ast.Module, ct: ast.Module) -> str:
     rb = body_of(vk)
     need(len(rb) == 1 and isinstance(rb[0], ast.Return) and isinstance(rb[0].value, ast.Call) and is_name(rb[0].value.func, "isinstance"),
          "valid_key_type: isinstance ladder")
-    names = [ctor_name(x) for x in rb[0].value.args[1].elts]
+    names = sorted(ctor_name(x) for x in rb[0].value.args[1].elts)      # a set of classes
     out.append("def validKeyTypes : List String := " + lean_list([lean_str(n) for n in names]))
     return "\n".join(out) + "\n"
 
@@ -446,8 +474,12 @@ def tr_string_fns(ev: ast.Module, ct: ast.Module) -> str:
         fn = find_func(ev.body, name)
         ps = [a.arg for a in fn.args.args]
         b = body_of(fn)
-        need(len(b) == 1 and isinstance(b[0], ast.Return), f"{name}: single return")
-        v = b[0].value
+        need(all(isinstance(st, (ast.Assign, ast.AnnAssign, ast.Return)) for st in b) and sum(isinstance(st, ast.Return) for st in b) == 1
+             and isinstance(b[-1], ast.Return), f"{name}: assignments then a single return")
+        stored = [(st.targets[0] if isinstance(st, ast.Assign) else st.target) for st in b[:-1]]
+        need(all(isinstance(t, ast.Name) and t.id not in ps for t in stored) and len({t.id for t in stored}) == len(stored),
+             f"{name}: only fresh single-assignment locals may precede the return")
+        v = ast.parse(inline_return(fn), mode="eval").body
         need(isinstance(v, ast.Call) and ctor_name(v.func) == "BoolType" and len(v.args) == 1, f"{name}: BoolType(..)")
         call = v.args[0]
         need(isinstance(call, ast.Call) and isinstance(call.func, ast.Attribute) and len(call.args) == 1, f"{name}: method call")
@@ -548,6 +580,7 @@ def tr_macros(ev: ast.Module) -> str:
             rows.append(f"({lean_str(nm)}, {lean_str(builder)}, {lean_list([lean_exc(c).replace('Cel.Exc', '') for c in caught])}, "
                         f"{lean_str(red)}, {init}, {wrapped}, {truth})")
     need(len(rows) == 5, f"member_dot_arg: expected the five macro branches, found {len(rows)}")
+    rows.sort()            # the branches test disjoint names: their order in the elif chain is immaterial
     out.append("/-- (macro, body builder, classes caught in the branch, reducer, initial value, reducer wrapped by eval_error(TypeError), uses truthiness) -/")
     out.append("def macroBranches : List (String × String × List Exc × String × Bool × Bool × Bool) :=\n  " + lean_list(rows))
     # build_macro_eval raises / build_ss_macro_eval catches CELEvalError
@@ -582,6 +615,7 @@ def tr_base_functions(ev: ast.Module) -> str:
         if isinstance(k, ast.Constant) and k.value in want:
             rows.append(f"({lean_str(k.value)}, {lean_str(ast.unparse(v))})")
     need(len(rows) == len(want), "base_functions: entries of the collection operators")
+    rows.sort()            # a dict display: the order of its entries is immaterial
     # bool_eq = boolean(operator.eq)
     beq = ast.unparse(find_func(ev.body, "bool_eq"))
     rows.append(f"({lean_str('bool_eq')}, {lean_str('boolean(operator.eq)' if 'return boolean(operator.eq)(a, b)' in beq else beq)})")
